@@ -52,7 +52,8 @@ theorem charScorer_tag (cfg : Cfg) (hcfg : cfg.tagPred = true) (m : WModel) (hW 
     (hT : ∀ i tm, T[i]? = some tm → ∀ d ∈ tm, ∀ w ∈ d.weights, w.weights.length = L i)
     (cs : Option (PmaScorer Char)) (h : charScorerNew cfg m T = .ok cs) :
     (cs = none ∧ ∀ tm ∈ T, tm = []) ∨ (∃ sc, cs = some sc ∧ TagScorerOK cfg m.charW T L sc) := by
-  simp only [charScorerNew] at h
+  have hW0 : ¬ m.charW = 0 := by omega
+  simp only [charScorerNew, hW0, if_false] at h
   have hTe : T.isEmpty = false := by
     cases T with
     | nil => exact absurd rfl hTne
@@ -62,10 +63,9 @@ theorem charScorer_tag (cfg : Cfg) (hcfg : cfg.tagPred = true) (m : WModel) (hW 
     simp only [Res.ok.injEq] at h
     left
     refine ⟨h.symm, ?_⟩
-    have hW0 : ¬ m.charW = 0 := by omega
     apply all_isEmpty
     revert hcond
-    simp only [hcfg, hW0]
+    simp only [hcfg]
     cases m.charNgrams.isEmpty <;> cases m.dict.isEmpty <;> simp
   · split at h
     · cases h
@@ -84,7 +84,8 @@ theorem typeScorer_tag (cfg : Cfg) (hcfg : cfg.tagPred = true) (m : WModel) (hW 
     (hT : ∀ i tm, T[i]? = some tm → ∀ d ∈ tm, ∀ w ∈ d.weights, w.weights.length = L i)
     (ts : Option TypeScorer) (h : typeScorerNew cfg m T = .ok ts) :
     (ts = none ∧ ∀ tm ∈ T, tm = []) ∨ (∃ sc, ts = some (.pma sc) ∧ TagScorerOK cfg m.typeW T L sc) := by
-  simp only [typeScorerNew] at h
+  have hW0 : ¬ m.typeW = 0 := by omega
+  simp only [typeScorerNew, hW0, if_false] at h
   have hTe : T.isEmpty = false := by
     cases T with
     | nil => exact absurd rfl hTne
@@ -94,10 +95,9 @@ theorem typeScorer_tag (cfg : Cfg) (hcfg : cfg.tagPred = true) (m : WModel) (hW 
     simp only [Res.ok.injEq] at h
     left
     refine ⟨h.symm, ?_⟩
-    have hW0 : ¬ m.typeW = 0 := by omega
     apply all_isEmpty
     revert hcond
-    simp only [hcfg, hW0]
+    simp only [hcfg]
     cases m.typeNgrams.isEmpty <;> simp
   · rw [if_pos (by simp [hcfg, hTe])] at h
     obtain ⟨sc, hsc, hcs'⟩ := res_map_ok _ _ _ h
